@@ -257,6 +257,13 @@ func (a *ipG2) ways(v ssa.Value, truth bool, fr *ipFrame, depth int, busy map[*s
 			}
 		}
 		return out
+	case *ssa.Extract:
+		// one boolean result of a same-package function with several results, e.g. (bool, error):
+		// read through its returns like a predicate (ip_j5.go, round 5)
+		if out, ok := a.j5TupleWays(x, truth, self, fr, depth, busy); ok {
+			return out
+		}
+		return atom
 	}
 	return atom
 }
